@@ -129,8 +129,8 @@ fn log_monitors(log: &[IoRec], cfg: &HybCfg) -> Vec<(String, String)> {
 
 /// Reclaim order: with the default pickers and no deletes (single flusher), blocks are reclaimed
 /// oldest-filled first: if every write of block generation B had completed before the first write of
-/// generation A was even submitted, B is cleaned before A. (Generations whose writes overlap in time
-/// belong to one flush batch and are unordered.)
+/// generation A was even submitted, the reclaim of B starts before the reclaim of A. (Generations whose
+/// writes overlap in time belong to one flush batch and are unordered.)
 fn fifo_order(log: &[IoRec], cfg: &HybCfg) -> Vec<(String, String)> {
     let fb = first_block_part(cfg);
     // generation = (block, first write submitted, last write completed, cleaned at)
@@ -148,6 +148,20 @@ fn fifo_order(log: &[IoRec], cfg: &HybCfg) -> Vec<(String, String)> {
                 gens.len() - 1
             });
             gens[i].2 = gens[i].2.max(r.completed_at.unwrap_or(u64::MAX));
+        }
+    }
+    // With several reclaimers the blocks are *picked* oldest first but cleaned in the completion order of
+    // their reclaim reads. The reclaim of a generation starts with the scanner's read of the block's first
+    // blob index page (offset 0; lookups never read offset 0): order generations by that read when there is
+    // one, else by the clean write.
+    for g in gens.iter_mut() {
+        let start = log
+            .iter()
+            .filter(|r| r.kind == IoKind::Read && r.part == g.0 + fb && r.offset == 0 && r.submitted_at >= g.2 && r.submitted_at <= g.3)
+            .map(|r| r.submitted_at)
+            .min();
+        if let Some(t) = start {
+            g.3 = t;
         }
     }
     let mut out = vec![];
